@@ -21,7 +21,8 @@ import (
 //                  prefix/indent and for empty and pre-filled destination buffers
 //   util-idem      Compact∘Compact and Indent∘Indent are the identity on their own output
 //   util-reject    invalid text: an error is returned and the destination buffer is unchanged
-//   util-htmlesc   valid text: HTMLEscape output is token-equivalent and free of raw < > & U+2028/9
+//   util-htmlesc   valid text: HTMLEscape output is token-equivalent and free of raw < > & U+2028/9;
+//                  invalid text: the destination buffer is left as it was
 //   util-valid     Valid agrees with encoding/json.Valid
 
 var c18Indents = [][2]string{{"", ""}, {"", " "}, {"", "\t"}, {">", " "}, {"→", "→ "}, {" ", ""}}
@@ -248,7 +249,24 @@ func c18Check(c *rt.Ctx, sub int, b []byte) {
 			}
 		}
 	}
-	// ---- HTMLEscape (valid texts only: it has no error result)
+	// ---- HTMLEscape: it has no error result, so for an invalid text the observable half of the
+	// property is that the destination buffer stays as it was
+	if !ref {
+		for _, pre := range c18Pre {
+			var gb bytes.Buffer
+			gb.WriteString(pre)
+			if pan, _, _ := rt.Guard(func() { gojson.HTMLEscape(&gb, b) }); pan {
+				c.Obs("panics_seen_judged_by_C06", 1)
+				continue
+			}
+			c.Eval(1)
+			if gb.String() != pre {
+				e := &c05Entry{name: "Valid", stream: true}
+				c.Violate(rt.Violation{Monitor: "util-htmlesc", Entry: "HTMLEscape", Kind: "wrote-on-invalid-text", Ctx: c05Explain(b, e),
+					Detail: "HTMLEscape(buf holding " + rt.Q([]byte(pre)) + ", " + rt.Q(b) + ") left " + rt.Q(gb.Bytes()), Input: string(b), Sub: sub})
+			}
+		}
+	}
 	if ref {
 		for _, pre := range c18Pre {
 			var gb bytes.Buffer
